@@ -450,7 +450,8 @@ fn if_expression<'t>(ctx: Context<'t>) -> ParseResult<'t, Expression> {
 
 fn arrow_call<'t>(ctx: Context<'t>, lhs: &Expression) -> ParseResult<'t, Expression> {
     let ctx = expect!(ctx, T::Arrow, "Expected '->' in arrow function call");
-    let (ctx, rhs) = expression(ctx)?;
+    // Only the call - operators after it belong to the surrounding expression.
+    let (ctx, rhs) = parse_precedence(ctx, Prec::Index)?;
 
     use AssignableKind::{ArrowCall, Call};
     use ExpressionKind::*;
